@@ -210,7 +210,11 @@ func (c02) Gen(rs uint64, tier string, race bool) interface{} {
 			k = r.Range(14, 25) // more than the 15 slots of the channel
 		}
 		for i := 0; i < k; i++ {
-			c.Alns = append(c.Alns, genIOAln(r, fs, 4, 14))
+			if r.Chance(0.2) {
+				c.Alns = append(c.Alns, genIOAln(r, fs, 3, 130)) // several blocks: the parser looks ahead across the alignment boundary
+			} else {
+				c.Alns = append(c.Alns, genIOAln(r, fs, 4, 14))
+			}
 		}
 		c.Policy = r.Pick(PolUniform, PolUniform, PolSticky, PolPCT, PolStarve, PolStarve)
 		if c.Plan.Mode == FragOne || c.Plan.Mode == FragSmall {
